@@ -112,9 +112,11 @@ def clone(f):
 
 
 def plus_one(f):
+    """User function = internal rule + 1024 (an amount no statutory rounding grid can swallow:
+    with `+ 1` a rule rounded down to multiples of 2 or 10 may show no change at all)."""
     @functools.wraps(f)
     def user_function(*args, **kwargs):
-        return f(*args, **kwargs) + 1.0
+        return f(*args, **kwargs) + 1024.0
 
     return user_function
 
